@@ -261,7 +261,18 @@ def _cmp_hops(res, func, H, dist, best, tol=0.0, condf=None):
                 res['fails'].append((func, 'edge-count', info)); return
 
 
-def tie_info(A, transform):
+def absorb_threshold(A):
+    """smallest 'big' length B of the matrix such that B + m == B in floats for the smallest positive length m (None if no
+    length is absorbed): the input-level flag `absorbed_length`"""
+    nz = np.asarray(A, dtype=float); nz = nz[nz != 0]
+    if nz.size < 2:
+        return None
+    m = float(nz.min())
+    big = sorted(x for x in set(nz.tolist()) if x + m == x and x != m)
+    return big[0] if big else None
+
+
+def tie_info(A, transform, absorb=None):
     """Exact-arithmetic picture of the graph, used only to scope the float-rounding known findings (lazily, n <= 10):
     val[a][b] = exact optimum from a to b over simple paths ('log': the largest product of the rational weights, i.e. the
     smallest -ln; otherwise the smallest sum of the decimal lengths), cnt[a][b] = number of simple paths attaining it,
@@ -278,6 +289,23 @@ def tie_info(A, transform):
             reach = reach | (reach[:, [k]] & reach[[k], :])
         zc = {i for i in range(n) if reach[i, i]}
     val = [[None] * n for _ in range(n)]; cnt = [[0] * n for _ in range(n)]
+    if absorb is not None:
+        # absorbed arithmetic: as soon as a walk contains a length >= B its float length no longer feels the small lengths
+        # (B + small == B), so two walks tie in floats iff they carry the same big lengths; small-only walks add exactly
+        W = [[Fr(float(A[i, j])) for j in range(n)] for i in range(n)]
+        Bq = Fr(float(absorb))
+        Z = (A != 0) & (A < absorb)
+        reach = Z.copy()
+        for k in range(n):
+            reach = reach | (reach[:, [k]] & reach[[k], :])
+        zc = {i for i in range(n) if reach[i, i]}       # nodes on a cycle of absorbed (small) connections
+
+    def plus(a, b):
+        if absorb is None:
+            return a * b if islog else a + b
+        if a >= Bq or b >= Bq:
+            return (a if a >= Bq else 0) + (b if b >= Bq else 0)
+        return a + b
     for s0 in range(n):
         best = {}
         stack = [(s0, Fr(1) if islog else Fr(0), 1 << s0)]
@@ -286,23 +314,24 @@ def tie_info(A, transform):
             for v in range(n):
                 if W[u][v] == 0 or (seen >> v) & 1:
                     continue
-                nv = v0 * W[u][v] if islog else v0 + W[u][v]
+                nv = plus(v0, W[u][v])
                 b = best.get(v)
                 if b is None or (nv > b[0] if islog else nv < b[0]):
                     best[v] = (nv, 1)
                 elif nv == b[0]:
                     best[v] = (nv, b[1] + 1)
-                else:
+                elif absorb is None:
                     continue           # a prefix of a minimum-length path has minimum length itself: prune
+                # (absorbed arithmetic is not strictly monotone: a longer prefix can still tie after a big length; no pruning)
                 stack.append((v, nv, seen | (1 << v)))
         for v, (x, c) in best.items():
             val[s0][v] = x; cnt[s0][v] = c
         val[s0][s0] = Fr(1) if islog else Fr(0)
-    return {'val': val, 'cnt': cnt, 'zc': zc, 'log': islog, 'n': n}
+    return {'val': val, 'cnt': cnt, 'zc': zc, 'log': islog, 'n': n, 'plus': plus, 'big': (Fr(float(absorb)) if absorb is not None else None)}
 
 
 def _comb(info, x, y):
-    return None if x is None or y is None else (x * y if info['log'] else x + y)
+    return None if x is None or y is None else info['plus'](x, y)
 
 
 def pair_tie(info, s, t, returned=()):
@@ -319,17 +348,24 @@ def pair_tie(info, s, t, returned=()):
             continue
         if cnt[a][t] > 1:
             return True
-        if any(_comb(info, val[a][c], val[c][t]) == val[a][t] for c in info['zc']):
-            return True
+        if (info['big'] is None or val[a][t] >= info['big']) and \
+                any(_comb(info, val[a][c], val[c][t]) == val[a][t] for c in info['zc']):
+            return True      # (absorbed mode: a small cycle only ties with routes that carry a big length)
     return False
 
 
 def _float_cond(exact, A, transform, cache, s, t, returned=()):
-    if exact:
-        return {'inexact_floats': False, 'exact_tie': False}
+    """condition keys of a Floyd hops / retrieve failure: `inexact_floats` (lengths whose sums round: 'log', decimals),
+    `absorbed_length` (exactly representable lengths of such different scale that big + small == big in floats; computed from
+    the input), `exact_tie` (pair-level tie between two different walks to the same target, in exact arithmetic, resp. in the
+    absorbed arithmetic the floats realise)"""
+    B = absorb_threshold(A) if transform is None else None
+    if exact and B is None:
+        return {'inexact_floats': False, 'absorbed_length': False, 'exact_tie': False}
     if 'info' not in cache:
-        cache['info'] = tie_info(A, transform)
-    return {'inexact_floats': True, 'exact_tie': bool(pair_tie(cache['info'], s, t, returned))}
+        cache['info'] = tie_info(A, transform, absorb=B)
+    return {'inexact_floats': not exact and B is None, 'absorbed_length': B is not None,
+            'exact_tie': bool(pair_tie(cache['info'], s, t, returned))}
 
 
 def _floyd_block(bct, res, case, A, transform, Lm, oracle, best, tol, exact, rout=True):
@@ -520,7 +556,7 @@ def run_case(case):
             _run_bin(bct, case, res)
         elif kind == 'wei':
             _run_wei(bct, case, res)
-        elif kind in ('log', 'flt'):
+        elif kind in ('log', 'flt', 'abs'):
             _run_log(bct, case, res)
         elif kind == 'nav':
             _run_nav(bct, case, res)
@@ -530,6 +566,8 @@ def run_case(case):
             _run_big(bct, case, res)
         elif kind == 'size':
             _run_size(bct, case, res)
+        elif kind == 'reclimit':
+            _run_reclimit(bct, case, res)
         elif kind == 'seq':
             _run_seq(bct, case, res)
         elif kind == 'probe':
@@ -640,7 +678,7 @@ def _run_seq(bct, case, res):
         r = {'fails': [], 'lines': [], 'stats': {}}
         if case.get('only'):
             sub = dict(sub, only=case['only'])
-        {'bin': _run_bin, 'wei': _run_wei, 'log': _run_log, 'flt': _run_log, 'nav': _run_nav}[sub['kind']](bct, sub, r)
+        {'bin': _run_bin, 'wei': _run_wei, 'log': _run_log, 'flt': _run_log, 'abs': _run_log, 'nav': _run_nav}[sub['kind']](bct, sub, r)
         for f, pr, info in r['fails']:
             info = dict(info) if isinstance(info, dict) else {'info': info}
             info['sequence_step'] = k
@@ -1017,6 +1055,47 @@ def size_specs(rs, tier):
     return [{'kind': 'size', 'A': [[0] * s_['n']], 'spec': s_, 'gen': 'size-' + s_['type']} for s_ in S]
 
 
+def _run_reclimit(bct, case, res):
+    """reachdist recurses once per matrix power (`reachdist2` calls itself): on a graph whose pairs are reached late (long chain)
+    or never (disconnected: it recurses until powr > n) the number of nested calls is about the diameter resp. n, and a
+    RecursionError is raised as soon as that exceeds the interpreter's recursion limit (n of about 1000 with the default limit).
+    Cheap reproduction of exactly that mechanism: the same call with the limit lowered to (current stack depth + `extra`) on a
+    chain that needs more than `extra` nested calls; `extra = None` runs with the interpreter's own limit (thorough: n = 1020).
+    A control chain that needs fewer calls than `extra` must return the right answer under the same lowered limit."""
+    import sys
+    n = case['n']; extra = case.get('extra')
+    A = np.zeros((n, n))
+    for x in range(n - 1):
+        A[x, x + 1] = A[x + 1, x] = 1
+    oracle = bfs_fast(A)
+    calls_needed = n - 2                      # powers 2 .. n-1 until the two ends of the chain reach each other
+    res['stats']['multihop'] = 1; res['stats']['reclimit_cases'] = 1
+
+    def limited(M):
+        if extra is None:
+            return bct.reachdist(M)
+        depth = 0; f = sys._getframe()
+        while f is not None:
+            depth += 1; f = f.f_back
+        old = sys.getrecursionlimit(); sys.setrecursionlimit(depth + extra)
+        try:
+            return bct.reachdist(M)
+        finally:
+            sys.setrecursionlimit(old)
+    st, out = call(limited, A.copy(), t=case.get('t', 60.0), retry=3)
+    res['stats']['calls:reachdist'] = res['stats'].get('calls:reachdist', 0) + 1
+    limit_room = (extra if extra is not None else sys.getrecursionlimit()) - 25      # frames left for the nested calls
+    if st == 'exc':
+        res['fails'].append(('reachdist', 'raises', {'exception': out, 'n': n, 'recursion_extra': extra, 'nested_calls_needed': calls_needed,
+                                                     'cond': {'storage': 'float', 'recursion_limit_reached': bool(out.startswith('RecursionError') and calls_needed >= limit_room)}}))
+    elif st == 'timeout':
+        res['fails'].append(('reachdist', 'does-not-return', {'n': n}))
+    else:
+        k0 = len(res['fails'])
+        _cmp_dist(res, 'reachdist', out[1], oracle, diag_zero=False); _cmp_flag(res, 'reachdist', out[0], out[1], oracle)
+        res['fails'][k0:] = [(f, pr, {'n': n, 'recursion_extra': extra}) for f, pr, _ in res['fails'][k0:]]
+
+
 def lollipop(c, p):
     """clique on c nodes with a path of p further nodes attached (undirected): many walks and a large diameter"""
     n = c + p; A = np.zeros((n, n))
@@ -1118,8 +1197,9 @@ def _run_wei(bct, case, res):
 
 
 def _run_log(bct, case, res):
-    """inexact float lengths: kind='log' (weights in (0,1], transform 'log') or kind='flt' (decimal lengths k/10, no
-    transform). No model correspondence (sums are not associative in floats); oracles by tolerance."""
+    """inexact float lengths: kind='log' (weights in (0,1], transform 'log'), kind='flt' (decimal lengths k/10, no transform),
+    kind='abs' (exactly representable lengths of mixed scale, e.g. {1, 1e16}: big + small == big). Judged on the float lengths as
+    numpy adds them (float min-plus closure, tolerance 1e-9); no model correspondence (the exact model keeps 1e16 + 1)."""
     W = np.array(case['A'], dtype=float); n = len(W)
     tr = 'log' if case['kind'] == 'log' else None
     if tr == 'log':
@@ -1313,6 +1393,8 @@ def _slice(rs, items, k):
 FLT_WITNESS = [[0.0, 0.0, 0.0, 0.0, 0.0, 0.1, 0.1], [0.0, 0.0, 0.0, 0.7, 0.4, 0.0, 0.0], [0.0, 0.0, 0.0, 0.1, 0.0, 0.5, 0.0],
                [0.4, 0.0, 0.0, 0.0, 0.6, 0.1, 0.1], [0.0, 0.0, 0.0, 0.2, 0.0, 0.1, 0.0], [0.1, 0.0, 0.0, 0.0, 0.4, 0.0, 0.0],
                [0.2, 0.0, 0.3, 0.6, 0.5, 0.1, 0.0]]
+ABS_WITNESS = [[0, 1, 1, 1, 0, 0], [1, 0, 0, 1, 0, 1e16], [0, 1e16, 0, 0, 0, 1e16], [0, 0, 0, 0, 1e16, 1e16], [0, 1e16, 0, 1, 0, 1],
+               [0, 1e16, 1e16, 1, 1e16, 0]]       # AUDIT4: retrieve_shortest_path(3, 2) = [3, 4, 5, 2, 0]
 LOG_WITNESS = [[0.0, 0.0, 0.0, 0.0625, 0.0625, 0.09375, 1.0, 0.0], [0.0, 0.0, 0.0625, 0.4375, 0.0, 0.0, 0.0, 0.625],
                [0.0, 0.0, 0.0, 0.875, 0.0, 0.0, 0.0, 0.0], [0.0, 0.0, 0.0, 0.0, 0.0, 0.0, 0.3125, 0.15625],
                [0.0, 0.09375, 0.0, 0.25, 0.0, 0.125, 0.0, 0.0], [0.375, 0.0, 0.09375, 0.0, 0.25, 0.0, 0.0, 0.0],
@@ -1403,11 +1485,24 @@ def gen_dist_cases(rs, tier):
         add('log', A, gen='log-weight-one-fixed')
     # --- size axis
     cases.extend(size_specs(rs, tier))
+    # --- reachdist's recursion depth (one nested call per matrix power): lowered limit on a chain that needs more nested calls
+    # than the limit leaves, a control chain that needs fewer, and (thorough) the real thing: n = 1020 with the default limit
+    cases.append({'kind': 'reclimit', 'A': [[0] * 120], 'n': 120, 'extra': 70, 'gen': 'reachdist-recursion'})
+    cases.append({'kind': 'reclimit', 'A': [[0] * 30], 'n': 30, 'extra': 70, 'gen': 'reachdist-recursion-control'})
+    if big:
+        cases.append({'kind': 'reclimit', 'A': [[0] * 1020], 'n': 1020, 'extra': None, 't': 900.0, 'gen': 'reachdist-recursion-1020'})
     # --- inexact float lengths (decimal k/10, no transform): oracle by tolerance only
     for _ in range(nr):
         n = int(rs.randint(4, 10)); directed = bool(rs.rand() < .7)
         A = rand_len_graph(rs, n, float(rs.choice([.3, .5, .7])), directed, [1, 2, 3, 4, 5, 6, 7]) / 10.0
         add('flt', A, gen='rand-decimal')
+    # absorbed lengths: exactly representable, but big + small == big in floats
+    for _ in range(nr // 2):
+        n = int(rs.randint(4, 8)); directed = bool(rs.rand() < .7)
+        pal = [[1.0, 1e16], [2.0 ** -60, 1.0], [1.5e-300, 1.0]][rs.randint(3)]
+        A = rand_len_graph(rs, n, float(rs.choice([.35, .5, .7])), directed, pal)
+        add('abs', A, gen='rand-absorbed')
+    add('abs', ABS_WITNESS, gen='witness-absorbed')
     # two fixed witnesses of the float-rounding finding of C12 (ties up to rounding), always run
     add('flt', FLT_WITNESS, gen='witness-decimal')
     add('log', LOG_WITNESS, gen='witness-log')
